@@ -8,7 +8,7 @@ from concurrent.futures import ThreadPoolExecutor
 V = pathlib.Path(__file__).resolve().parents[1]
 sys.path.insert(0, str(V / "selftest"))
 
-CATALOGUE = {"m01": ["C01"], "m02": ["C01"], "m03": ["C01", "C02"], "m04": ["C02"], "m05": ["C02"], "m06": ["C02"], "m07": ["C02"], "m08": ["C02"], "m09": ["C02"],
+CATALOGUE = {"m01": ["C01"], "m02": ["C01"], "selftest/patches/c01-m03-removed-atom-interactions-kept.diff": ["C01", "C02"], "m04": ["C02"], "m05": ["C02"], "m06": ["C02"], "m07": ["C02"], "m08": ["C02"], "m09": ["C02"],
              "m10": ["C14"], "m11": ["C14"], "m12": ["C10"], "m13": ["C10"], "m14": ["C08"], "m15": ["C08"], "m16": ["C08", "C03"], "m17": ["C09"], "m18": ["C09"],
              "m19": ["C09"], "m20": ["C09"], "m21": ["C16"], "m22": ["C16"], "m23": ["C16", "C07"], "m24": ["C17"], "m25": ["C17"], "m27": ["C05"], "m28": ["C05"],
              "m29": ["C05"], "m30": ["C06"], "m31": ["C06"], "m32": ["C07"], "m33": ["C07"], "m34": ["C18", "C07"], "m35": ["C18"], "m36": ["C19"], "m37": ["C19"],
@@ -35,8 +35,10 @@ def pairs(only, props):
             br = meta["breaks"] if isinstance(meta["breaks"], list) else [meta["breaks"]]
             out += [("seeded/" + d.name, p, "revert") for p in br]
     if only in (None, "seeds"):
-        for d in sorted((V / "seeded").glob("seed-*")):
+        for d in sorted(list((V / "seeded").glob("seed-*")) + list((V / "seeded").glob("seed2-*"))):
             meta = json.loads((d / "meta.json").read_text())
+            if meta.get("obsolete"):
+                continue
             out.append(("seeded/" + d.name, meta["breaks"], "independent"))
     if only in (None, "own"):
         for f in sorted((V / "selftest" / "patches").glob("c[0-9][0-9]-*.diff")):
